@@ -25,6 +25,41 @@ def builder(g, E, do, length):
         do({"cmd": "dump"})
 
 
+def big_builder(g, E, do, length):
+    """a store of 100-260 objects (window sizes, page sizes and batch sizes of any implementation lie below), created
+    in batches so that many share their Initial Date, key pairs included; then unfiltered, filtered and paged Locates"""
+    from gen_engine import hexof
+    n_target = g.ch([101, 120, 199, 201, 260])
+    made = 0
+    while made < n_target:
+        items = []
+        for k in range(g.ch([5, 8, 10])):
+            if g.p(0.12):
+                it = g.item(op="createKeyPair", version=14)
+                made += 2
+            else:
+                it = g.item(op=g.ch(["create", "create", "register"]), version=14)
+                made += 1
+            it["bid"] = "m%d" % k
+            items.append(it)
+        if g.p(0.25):
+            g.now += 1
+        do({"cmd": "req", "now": g.now, "id": {"user": g.ch(["alice", "alice", "bob"]), "groups": None},
+            "req": {"version": 14, "ts": None, "async": None, "bopt": 1, "maxsize": None, "items": items}})
+    do({"cmd": "dump"})
+    for _ in range(length):
+        it = g.item(op="locate", version=14)
+        if g.p(0.5):
+            it["attrs"] = []
+        if g.p(0.6):
+            it["max"] = g.ch([None, 25, 50, 99, 100, 101, 150])
+            it["offset"] = g.ch([None, 0, 1, 25, 75, 99, 100, 101, 200])
+        it["bid"] = None
+        do({"cmd": "req", "now": g.now, "id": {"user": g.ch(["alice", "alice", "bob"]), "groups": None},
+            "req": {"version": 14, "ts": None, "async": None, "bopt": None, "maxsize": None, "items": [it]}})
+        do({"cmd": "dump"})
+
+
 def nontrivial(j, o):
     if "results" not in o:
         return False
@@ -35,6 +70,9 @@ def nontrivial(j, o):
 def run(ctx):
     engine_check.standard_run(ctx, PROFILE, MONITORS, nontrivial, RULE, n_quick=160, n_thorough=3000, length=40,
                               builder="props.c14.builder")
+    # stores of more than a hundred objects with many equal Initial Dates
+    engine_check.scenario_run(ctx, "props.c14.big_builder", MONITORS, nontrivial, RULE, 8, 120, 12, "large_store_part",
+                              seed_base=840000, profile=dict(PROFILE, builtin_policies_only=True))
 
 
 def search(ctx, broken):
